@@ -1118,6 +1118,8 @@ pub fn worker_main(prop: &dyn Prop, args: &[String]) -> i32 {
     unsafe {
         let lim = libc::rlimit { rlim_cur: gib << 30, rlim_max: gib << 30 };
         libc::setrlimit(libc::RLIMIT_AS, &lim);
+        // A worker must not outlive its driver (a killed check would leave spinning orphans).
+        libc::prctl(libc::PR_SET_PDEATHSIG, libc::SIGKILL);
     }
     let known = KnownFindings::load(&verif_root().join("known_findings.json"));
     let n_shards = prop.n_shards(tier);
